@@ -23,7 +23,24 @@ Init == l = 1
 \* a logged hit as a Net rule record (only the fields VerdictsFor reads)
 AsRule(h) == [R0 EXCEPT !.exc = h.exc, !.important = h.important, !.tag = h.tag, !.ghide = h.ghide,
                         !.mkind = h.mkind, !.mval = h.mval, !.body = Chars(h.line)]
-Req(e) == [url |-> Chars(e.url), hs |-> 1, he |-> 1, scheme |-> e.scheme, alias |-> e.type, src |-> Chars(e.src), tp |-> e.tp]
+Req(e) == [url |-> Chars(e.url), hs |-> 1, he |-> 1, scheme |-> e.scheme, alias |-> e.type, src |-> Chars(e.srchost), tp |-> e.tp]
+
+\* For synthetic lists the generator also CLAIMS, for some rules (given as ASTs), that they must /
+\* must not hit the request.  The spec does not trust the claim: it recomputes the rule's meaning
+\* with Net!Hit, and then requires the implementation's own matcher to agree.  This is what
+\* notices a defect inside the per-rule matcher, which the linear-scan oracle alone would share.
+Claimed(m) == [R0 EXCEPT !.left = m.left, !.body = Chars(m.body), !.right = m.right, !.exc = m.exc,
+                         !.pos = {m.pos[i] : i \in DOMAIN m.pos}, !.neg = {m.neg[i] : i \in DOMAIN m.neg}, !.party = m.party,
+                         !.dom = {m.dom[i] : i \in DOMAIN m.dom}, !.ndom = {m.ndom[i] : i \in DOMAIN m.ndom}]
+HitLines(e) == {e.hits[i].line : i \in DOMAIN e.hits}
+ClaimProblems(e) ==
+  LET q == Req(e) IN
+  UNION { IF Hit(Claimed(e.must[i]), q) # {TRUE} THEN {"generator claim not supported by the specification (must): " \o e.must[i].line}
+          ELSE IF e.must[i].line \notin HitLines(e) THEN {"the rule's own matcher rejects a request the rule must match: " \o e.must[i].line}
+          ELSE {} : i \in DOMAIN e.must }
+  \cup UNION { IF Hit(Claimed(e.mustnot[i]), q) # {FALSE} THEN {"generator claim not supported by the specification (mustnot): " \o e.mustnot[i].line}
+               ELSE IF e.mustnot[i].line \in HitLines(e) THEN {"the rule's own matcher accepts a request the rule must not match: " \o e.mustnot[i].line}
+               ELSE {} : i \in DOMAIN e.mustnot }
 
 Expected(e) ==
   LET L == [i \in DOMAIN e.hits |-> AsRule(e.hits[i])]
@@ -40,9 +57,9 @@ Check(e) ==
                 \/ [matched |-> e.obs[k].matched, important |-> e.obs[k].important, exception |-> e.obs[k].exception,
                     rewritten |-> e.obs[k].rewritten] \notin x.v
                 \/ {e.obs[k].csp[i] : i \in DOMAIN e.obs[k].csp} # x.csp} IN
-  IF bad = {} THEN TRUE
-  ELSE PrintT(ToJson([ev |-> "MISMATCH", at |-> l, list |-> e.list, url |-> e.url, src |-> e.src, type |-> e.type, tags |-> e.tags,
-                      hits |-> [i \in DOMAIN e.hits |-> e.hits[i].line],
+  IF bad = {} /\ ClaimProblems(e) = {} THEN TRUE
+  ELSE PrintT(ToJson([ev |-> "MISMATCH", at |-> l, list |-> e.list, url |-> e.url, src |-> e.srchost, type |-> e.type, tags |-> e.tags,
+                      hits |-> [i \in DOMAIN e.hits |-> e.hits[i].line], claims |-> ClaimProblems(e),
                       observed |-> [k \in bad |-> e.obs[k]], allowed |-> x.v, csp_allowed |-> x.csp, devs |-> {}]))
 
 Next == l <= Len(Rec) /\ Check(Rec[l]) /\ l' = l + 1
